@@ -5,6 +5,7 @@ import families
 import meta
 
 LEVEL_NOTE = [
+    "theorem C17.swap_token (token level): two string literals with the same prefix and opaque bodies of the same length go from the same lexer state to the same state through the whole sub-lexer chain; the STRING tokens differ only in their text, no diagnostic",
     "theorems C17.pop_opaque / string_body_swap (lexer half): inside a literal every character other than the delimiter, backslash, newline, tab and the digraph/trigraph starters `? < % :` is consumed as itself, one column, no diagnostic; two bodies of the same length leave the lexer in the same state with the same diagnostics. Tie: `lex` correspondence (shared with C09/C10) + the swap oracle below on the real pipeline",
 ]
 PARTIAL = [
